@@ -1,17 +1,28 @@
 #!/bin/bash
-# MANIFEST.setup_cmd: build the whole Coq development (full .vo build) and smoke-run the harness.
+# MANIFEST.setup_cmd: build the Coq development (full .vo build) and smoke-run the harness.
 set -e
 here=$(cd "$(dirname "$0")" && pwd)
 cd "$here"
 export PYTHONPATH=/repo/src:$here/harness PYTHONHASHSEED=0 PYTHONDONTWRITEBYTECODE=1
 /venv/bin/python - <<'PY'
-import sys
+import sys, json, os
 sys.path.insert(0, 'harness')
 import core
-ok, out = core.build(clean=False)
+# 1. everything the registered checks need (fatal if it does not build)
+m = json.load(open('MANIFEST.json'))
+targets = []
+for c in m['checks']:
+    pid = c['property_id']
+    targets += ['Props/%s.v' % pid, 'Run/Judge%s.v' % pid]
+targets = [t for t in targets if os.path.exists(os.path.join(core.COQ, t))]
+ok, out = core.build(clean=False, targets=targets)
 print(out[-3000:])
 if not ok:
     sys.exit(1)
+# 2. the rest of the development (legacy models, work in progress): built too, reported, not fatal for setup
+ok2, out2 = core.build(clean=False)
+if not ok2:
+    print('NOTE: full build reported problems outside the registered checks:\n' + out2[-1500:])
 core.import_impl()
 import numpy as np, kneeliverse.metrics as m
 m.smape(np.array([1.0, 2.0]), np.array([1.0, 3.0]))   # numba's first-call compilation surfaces here
